@@ -24,7 +24,7 @@ def queries(tier):
         defs = dict(defs, PIDMAX=4)
         heavy = name.startswith(("union", "range")) or name.endswith(("3x2", "2x3"))
         qs.append(Query(name, "C32/group.cpp", "harness_group", defs, SRC, unwind=10 if heavy else 6, cap_s=2400 if heavy else 900, mem_gb=30 if heavy else 12,
-                        ll2c_cap=8 if heavy else 4, memcap=8 if heavy else 4, tiers=("quick", "thorough") if name in QUICK else ("thorough",), paths=PATHS, **kw))
+                        ll2c_cap=8, memcap=8, tiers=("quick", "thorough") if name in QUICK else ("thorough",), paths=PATHS, **kw))
     for n1 in (1, 2, 3):
         for k in range(1, n1 + 1):
             if n1 == 3 and k > 1:
